@@ -110,7 +110,8 @@ chk("C06", "static analysis: one-step MIR transition tables vs std's SplitIntern
     "mirrored rule for rsplit_terminator); RSplit must be Split stepping from the other end; constructors are a decision table over (delimiter empty, input "
     "empty): Empty(Start) exactly for an empty delimiter, else Normal with the normalised pattern (or, for an empty input, the state "
     "that takes the same single step); rsplit = split.rev(), rsplit_terminator copies split_terminator's fields, "
-    "remainder() returns the remainder field, copy() is a field-wise copy. Symbolic in string and delimiter.",
+    "remainder() returns the remainder field, copy() is a field-wise copy; the two matcher loops every step searches with are decided "
+    "here as well with C04's restart lint and scan tables (the tables read `find` as \"the first occurrence, if any\"). Symbolic in string and delimiter.",
     "Trusted: rustc MIR; find/rfind return Some only when the needle fits in the haystack (C04). The sequence of pieces follows from the one-step tables by the simulation argument in DESIGN.md "
     "App. D (not mechanised); find/rfind are C04, the boundary search is C07.")
 chk("C08", "static analysis: one-step MIR decision tables over (offset,count) views vs std's slice-iterator steps, forward/reverse isomorphism",
@@ -140,7 +141,8 @@ chk("C19", "static analysis: MIR decision tables of macro expansions in a witnes
     "arity, both macros). A token lint over the macro definitions "
     "rejects fragment specifiers inside transcribers (this found the arity>=3 defect); HYGIENE lint on the 43 macros of the family; all "
     "35 option/result forms re-typed with payload and error types that are neither Copy nor Clone must compile (ACC-NONCOPY), as must "
-    "the documented shapes with an operand type inferred from the other (ACC-INFER).",
+    "the documented shapes with an operand type inferred from the other (ACC-INFER) and every closure-taking form with each kind of "
+    "irrefutable closure-parameter pattern (`|&x|`, `|mut x|`, `|ref x|`, tuple, struct and tuple-struct patterns, `_`: ACC-PARAM, 72 programs).",
     "Trusted: rustc's macro expansion and MIR for the witness crate; marker functions are opaque (`#[inline(never)] loop{}`), "
     "so results hold for every closure. The accept family is sampled per arity in the quick tier (uniform + mixed kinds).",
     cat="other")
@@ -203,7 +205,9 @@ chk("C11", "static analysis: MaybeUninit init-typestate (path coverage on the pr
     "transcriber of the family declares an ordinary-looking item or generic-parameter name where caller tokens are expanded (HYGIENE); ArrayBuilder push/build/new/as_slice follow the inited protocol (a panicking path of push must leave "
     "`inited` untouched: the builder outlives the panic), Clone pushes the clone of every element of as_slice() once, in order, "
     "into a fresh builder, and only new/push/copies write `inited`; map_! forgets the consumer only after next() returned None and then builds; both collect_const passes call the "
-    "same generated function and count identically.",
+    "same generated function and count identically; while the closure body of map_! runs the element is an ordinary owned local "
+    "(ManuallyDrop::into_inner dominates all caller code of the round, 8 witnesses incl. `|ref x|` with early exits: ELEM-OWNED); an array "
+    "operand that borrows from its own temporaries must compile, as it does with <[T; N]>::map (ACC-TEMP).",
     "Trusted: rustc MIR and macro expansion; macro hygiene keeps the counter/array unnameable from user tokens. Values "
     "computed by user closures are opaque (marker functions).")
 chk("C15", "static analysis: linear-use analysis of macro expansions in a witness crate (MIR), container read/advance/drop-range rules and field-writer invariants",
@@ -220,7 +224,7 @@ chk("C15", "static analysis: linear-use analysis of macro expansions in a witnes
     "Clone the balance (slots written) - (slots newly covered by a counter update) is never negative where a call can unwind into "
     "the drop of the half-built clone, and zero after every round; "
     "ArrayBuilder's Drop covers [0,inited) on every path (or nothing, under !needs_drop::<T>()), and the builder's own invariant "
-    "(push asserts inited < N before it writes slot `inited` and only then bumps the counter; only new/push/copies write it) is decided here as well (C11's BUILDER rule). Exactly-once then follows from the range invariant by induction over operations.",
+    "(push asserts inited < N before it writes slot `inited` and only then bumps the counter; only new/push/copies write it) is decided here as well (C11's BUILDER rule), and so are the consumer protocol and the element ownership of the by-value map (C11's BYVAL and ELEM-OWNED on its witnesses). Exactly-once then follows from the range invariant by induction over operations.",
     "Trusted: rustc MIR/expansion; rustc's exhaustive-pattern check for the field set; the by-value map protocol is C11's BYVAL "
     "rule. Of the unwinding paths only what the rules above name is analysed (state left behind for Drop); cleanup blocks are "
     "otherwise not walked.")
